@@ -794,7 +794,11 @@ impl XmlAttribute {
     }
 
     fn namespace(&self) -> bool {
-        self.prefix().map(|p| p == "xmlns").unwrap_or_default() || self.local_name() == "xmlns"
+        // xmlns:p="..." or xmlns="..."; p:xmlns="..." is an ordinary attribute
+        match self.prefix() {
+            Some(p) => p == "xmlns",
+            None => self.local_name() == "xmlns",
+        }
     }
 }
 
